@@ -20,6 +20,39 @@ from typing import Dict, Optional
 from xsdata.exceptions import XmlContextError  # noqa: F401
 from xsdata.formats.dataclass.context import XmlContext
 
+
+
+def _warm_up():
+    """Trigger every lazy import of the code under test once, so that
+    len(sys.modules) only changes when a Realm says so."""
+    from xsdata.formats.dataclass.parsers import DictDecoder, JsonParser, XmlParser  # noqa: F401
+    from xsdata.formats.dataclass.parsers.handlers import LxmlEventHandler, XmlEventHandler
+    from xsdata.formats.dataclass.serializers import DictEncoder, JsonSerializer, XmlSerializer  # noqa: F401
+    from xsdata.formats.dataclass.serializers.mixins import EventGenerator  # noqa: F401
+
+    @dataclasses.dataclass
+    class _W:
+        x: Optional[str] = dataclasses.field(default=None, metadata={"type": "Element"})
+        y: Optional[object] = dataclasses.field(default=None, metadata={"type": "Wildcard"})
+
+    ctx = XmlContext()
+    for h in (LxmlEventHandler, XmlEventHandler):
+        xml = XmlSerializer(context=ctx).render(_W(x="1"))
+        XmlParser(context=ctx, handler=h).from_string(xml, _W)
+        XmlParser(context=ctx, handler=h).from_string("<_W><x>1</x><k/></_W>", _W)
+    js = JsonSerializer(context=ctx).render(_W(x="1"))
+    JsonParser(context=ctx).from_string(js, _W)
+    try:
+        XmlParser(context=ctx).from_string("<nope", _W)
+    except Exception:  # noqa: BLE001
+        pass
+    try:
+        JsonParser(context=ctx).from_string("{", _W)
+    except Exception:  # noqa: BLE001
+        pass
+
+
+_warm_up()
 _counter = itertools.count()
 _since_gc = 0
 
@@ -150,6 +183,24 @@ class Realm:
             raise RuntimeError(f"class {i} is not loaded yet")
         return int  # "a class the universe does not know": not a binding model
 
+    def obj(self, toks):
+        """The object tree a token list denotes (leaf values are the string 'v')."""
+        root = None
+        stack = []
+        for t in toks:
+            if t[0] == "enter":
+                o = self.cls(t[2])()
+                if stack:
+                    setattr(stack[-1], dataclasses.fields(stack[-1])[t[1]].name, o)
+                else:
+                    root = o
+                stack.append(o)
+            elif t[0] == "leaf":
+                setattr(stack[-1], dataclasses.fields(stack[-1])[t[1]].name, "v")
+            else:
+                stack.pop()
+        return root
+
     def context(self) -> XmlContext:
         return XmlContext(models_package=self.pkg)
 
@@ -209,6 +260,11 @@ class Realm:
             if k == "reset":
                 ctx.reset()
                 return {"done": None}
+            if k == "serialize":
+                from xsdata.formats.dataclass.serializers.mixins import EventGenerator
+
+                events = list(EventGenerator(context=ctx).generate(self.obj(op["toks"])))
+                return {"names": [e[1] for e in events if e[0] == "start"]}
         except (XmlContextError, ValueError, KeyError, IndexError) as e:
             return {"err": type(e).__name__}
         except Exception as e:  # noqa: BLE001
